@@ -1579,6 +1579,16 @@ pub fn realclock_sessions(rep: &Report) -> u64 {
     for (name, wtime) in [("slice-2^64-ms", "23058430092136939620"), ("slice-multiple-of-2^64-ms", "100000000000000000000000000000000000000"), ("slice-2^32-ms", "5368709220"), ("slice-2^31-ms", "2684354660"), ("slice-10^15-ms", "1250000000000100"), ("slice-1-hour", "4500100")] {
         cases.push(Case { name, steps: vec![send(POSITIONS[0]), send(&format!("go wtime {} btime 1000 movestogo 1", wtime)), Step::Wait("bestmove", 1800)], gos: vec![None] });
     }
+    // thorough: slices of 16 s — an overhead that grows with the slice (a polling interval derived from the
+    // elapsed time, say) is invisible below a few seconds. Judged relative to the overhead of the short slices
+    // of the same run, so that machine load moves both.
+    let go16000 = "go wtime 20100 btime 20100 movestogo 1";
+    if !rep.quick() {
+        for (k, p) in [POSITIONS[0], POSITIONS[2], POSITIONS[3], POSITIONS[0], POSITIONS[2], POSITIONS[3]].iter().enumerate() {
+            cases.push(Case { name: if k < 3 { "slice-of-16-s" } else { "slice-of-16-s-after-a-pause" }, steps: vec![send(p), send("isready"), Step::Wait("readyok", 3000), Step::Sleep(if k < 3 { 0 } else { 333 }), send(go16000), Step::Wait("bestmove", 16000 + 3500)], gos: vec![Some(16000)] });
+        }
+    }
+    let overheads: Mutex<Vec<(u128, i128, String)>> = Mutex::new(Vec::new());
     let n = AtomicU64::new(0);
     run_parallel(cases.len(), |i| {
         let case = &cases[i];
@@ -1606,6 +1616,7 @@ pub fn realclock_sessions(rep: &Report) -> u64 {
             match (plan, best_waits.get(gi).cloned().flatten()) {
                 (Some(slice), Some(at)) => {
                     let delay = at.saturating_sub(sent_at);
+                    overheads.lock().unwrap().push((*slice, delay as i128 - *slice as i128, case.name.to_string()));
                     if delay > slice + tol_late {
                         rep.fail("C08", &format!("realclock/{}/bestmove-later-than-slice-plus-3s", case.name), format!("go #{} of {:?}: bestmove {} ms after go, slice {} ms", gi + 1, script, delay, slice), replay.clone());
                     }
@@ -1624,6 +1635,19 @@ pub fn realclock_sessions(rep: &Report) -> u64 {
             rep.fail("C08", &format!("realclock/{}/not-responsive-after-go", case.name), format!("{:?}: quit after the last bestmove did not end the process within 3 s", script), replay.clone());
         }
     });
+    // "a small constant overhead": the overhead of the long slices is not larger than that of the short ones
+    let overheads = overheads.into_inner().unwrap();
+    let base = overheads.iter().filter(|(s, _, name)| *s <= 2300 && !name.starts_with("capture-explosion")).map(|(_, o, _)| *o).max().unwrap_or(0);
+    let mut worst_long: i128 = 0;
+    for (slice, o, name) in &overheads {
+        if *slice >= 16000 {
+            worst_long = worst_long.max(*o);
+            if *o > base.max(0) + 40 {
+                rep.fail("C08", "realclock/overhead-grows-with-the-slice", format!("{}: bestmove {} ms after the end of a {} ms slice, while the slices of 0.2 .. 2.3 s of the same run overran by at most {} ms", name, o, slice, base), J::obj().set("kind", J::s("realclock-session")).set("script", J::strs(&[POSITIONS[0], go16000])).set("binary", J::s(BIN_OFF)));
+            }
+        }
+    }
+    rep.set_extra("realclock_overheads_ms", J::obj().set("largest_overrun_of_slices_up_to_2300_ms", J::Int(base as i128)).set("largest_overrun_of_16_s_slices_thorough_only", J::Int(worst_long as i128)));
     rep.add("realclock_interactive_sessions_unhooked_binary", n.load(Ordering::Relaxed));
     n.load(Ordering::Relaxed)
 }
